@@ -40,6 +40,9 @@ def plan(tier, seed):
     n_pairs = 10 if tier == "quick" else 150
     for i in range(n_pairs):
         shards.append({"kind": "evolve", "seed": seed * 50021 + i, "n": 300 if tier == "quick" else 1000})
+    # the directed pair, once with the newer and once with the OLDER classes used first in the process
+    shards.append({"kind": "evolve", "seed": -1, "n": 120 if tier == "quick" else 600, "first": "newer"})
+    shards.append({"kind": "evolve", "seed": -2, "n": 120 if tier == "quick" else 600, "first": "older"})
     return shards
 
 
@@ -55,6 +58,30 @@ def _insert_unknown(rng, wg, known, recs_raw, k):
         pos = rng.randint(0, len(raws))
         raws.insert(pos, u)
         marks.insert(pos, u)
+    mi = getattr(wg, "_c08_mi", None)
+    if mi is not None and rng.random() < 0.5:
+        # "any field number, any wire type, any position": a record that reuses the NUMBER of a declared field with a wire
+        # type that does not fit it is unknown data too -- placed directly next to a real occurrence of that field
+        from .c17 import _fits, _payload_for
+
+        present = []
+        for i, r in enumerate(raws):
+            if marks[i] is None:
+                try:
+                    n = spec.dec_varint(r)[0] >> 3
+                except Exception:
+                    continue
+                f = next((f for f in mi.fields if f.number == n and f.label != "map"), None)
+                if f is not None:
+                    present.append((i, f))
+        if present:
+            i, f = rng.choice(present)
+            wts = [wt for wt in (0, 1, 2, 5) if not _fits(f, wt)]
+            if wts:
+                u = _payload_for(rng.choice(wts), f.number, rng)
+                pos = i + rng.choice([0, 1])
+                raws.insert(pos, u)
+                marks.insert(pos, u)
     return raws, [m for m in marks if m is not None]
 
 
@@ -70,7 +97,9 @@ def check_interleave(b, bp, ref, mi, tree, res: Result, w, rng):
     check_histories(b, bp, mi, tree, res, w, rng, e0)
     for mode in ("top", "top", "nested"):
         if mode == "top":
+            wg._c08_mi = mi
             raws, inserted = _insert_unknown(rng, wg, known, [r.raw for r in recs], rng.randint(1, 4))
+            wg._c08_mi = None
             e = b"".join(raws)
             nested_no = None
         else:
@@ -117,7 +146,9 @@ def check_interleave(b, bp, ref, mi, tree, res: Result, w, rng):
             res.violation("reencode-malformed", [mode, type(ex).__name__], f"{mi.full_name}: re-encoded bytes unreadable: {ex!r}", ww)
             continue
         if nested_no is None:
-            out_unknown = [r.raw for r in out_recs if r.number not in known]
+            from .c17 import _fits
+
+            out_unknown = [r.raw for r in out_recs if r.number not in known or (fields[r.number].label != "map" and not _fits(fields[r.number], r.wt))]
         else:
             sub_recs = [r for r in out_recs if r.number == nested_no and r.wt == spec.WT_LEN]
             if len(sub_recs) != 1:
@@ -235,7 +266,25 @@ def check_histories(b, bp, mi, tree, res: Result, w, rng, e0: bytes):
 # ---------------------------------------------------------------------------
 # (a) evolution
 
+_DIRECTED_NEW = {"inv.proto": 'syntax = "proto3";\npackage vfevolve.inv;\n'
+                  "enum Kind { KIND_NONE = 0; KIND_A = 1; KIND_B = 2; }\n"
+                  "message Sub { int32 a = 1; string b = 2; repeated int32 c = 3; }\n"
+                  "message Item { string name = 1; int32 qty = 2; Sub sub = 3; map<string, Sub> subs = 4; Kind kind = 5; }\n"
+                  "message Inventory { map<string, Item> items = 1; map<int32, Kind> kinds = 2; repeated Item list = 3; Item one = 4; "
+                  "oneof pick { Item picked = 5; string note = 6; } optional Item maybe = 7; }\n"}
+_DIRECTED_OLD = {"inv.proto": 'syntax = "proto3";\npackage vfevolve.inv;\n'
+                  "enum Kind { KIND_NONE = 0; KIND_A = 1; }\n"
+                  "message Sub { int32 a = 1; }\n"
+                  "message Item { string name = 1; Sub sub = 3; map<string, Sub> subs = 4; }\n"
+                  "message Inventory { map<string, Item> items = 1; map<int32, Kind> kinds = 2; repeated Item list = 3; Item one = 4; "
+                  "oneof pick { Item picked = 5; string note = 6; } optional Item maybe = 7; }\n"}
+
+
 def _pair(seed):
+    if seed < 0:
+        # a fixed pair in which value types of maps / lists / oneof members lose fields; the same type NAMES exist in both
+        # generated packages, which are loaded side by side in one process
+        return dict(_DIRECTED_NEW), dict(_DIRECTED_OLD)
     rng = random.Random(f"evolve-{seed}")
     g = SchemaGen(rng, names="keywords", services=False, max_files=2)
     new = g.gen_set()
@@ -265,6 +314,14 @@ def run_evolve(shard) -> Result:
         g = Gen(bn, rng)
         bpn, refn = BP(bn), REF(bn)
         per = max(3, shard["n"] // max(1, len(msgs)))
+        if shard.get("first") == "older" or shard["seed"] == -2:
+            # the older generated classes decode something before the newer ones are ever used
+            for omi_ in bo.user_messages():
+                try:
+                    ocls = bo.bp_class(omi_.full_name)
+                    ocls().parse(bytes(BP(bo).make(omi_, Gen(bo, random.Random(1)).tree(omi_, 0, "maximal"))))
+                except Exception:
+                    pass
         for mi in msgs:
             if only and mi.full_name != only:
                 continue
